@@ -4,7 +4,9 @@ import (
 	"encoding/json"
 	"fmt"
 	"os"
+	"regexp"
 	"sort"
+	"strings"
 	"testing"
 )
 
@@ -71,6 +73,9 @@ func TestMinimise(t *testing.T) {
 				}
 				sort.Strings(keys)
 				for _, k := range keys {
+					if protectedKeys[k] {
+						continue
+					}
 					saved := x[k]
 					delete(x, k)
 					if still(cur) {
@@ -107,11 +112,20 @@ func TestMinimise(t *testing.T) {
 	fmt.Println("minimised:", dst, len(raw), "bytes")
 }
 
-// failureClass keeps the first 60 characters of the failure, digits removed: enough to stay on the same root cause.
+// protectedKeys are never deleted: without them a document leaves the generated class (a body
+// parameter without "in", a document without "swagger", ...).
+var protectedKeys = map[string]bool{"in": true, "name": true, "swagger": true, "info": true, "title": true, "version": true, "dir": true, "description": true, "opts": true, "type": true, "paths": true}
+
+// failureClass abstracts a failure message to its shape: first line, quoted strings and digits
+// removed, 200 characters. Enough to keep the minimiser on the same root cause.
 func failureClass(msg string) string {
+	if i := strings.IndexByte(msg, '\n'); i >= 0 {
+		msg = msg[:i]
+	}
+	msg = quoted.ReplaceAllString(msg, "Q")
 	out := []rune{}
 	for _, r := range msg {
-		if r == '\n' || len(out) >= 60 {
+		if len(out) >= 200 {
 			break
 		}
 		if r < '0' || r > '9' {
@@ -120,3 +134,5 @@ func failureClass(msg string) string {
 	}
 	return string(out)
 }
+
+var quoted = regexp.MustCompile(`"[^"]*"|#/\S+|/vfs/\S+`)
